@@ -1205,3 +1205,125 @@ func c13R17(c *Ctx, r *Report) {
 	}
 	r.Floor(rule, n, 1, "exact big.Int.Exp calls")
 }
+
+// ---- C02.R4b: constant opcodes outside the append-append idiom ----------------------------------------------
+
+func init() {
+	lateInits = append(lateInits, func() {
+		props["C02"].Quick = append(props["C02"].Quick, c02R4b)
+		props["C02"].Explanation += " (R4b) wherever an i32.const / i64.const opcode (named or as the raw byte 0x41 / 0x42) is written outside the `append(out, opcode); append(out, enc…)` idiom the immediate that follows in the same or the next statement is encodeS32 / encodeS64."
+	})
+}
+
+func c02R4b(c *Ctx, r *Report) {
+	const rule = "C02.R4b"
+	r.Describe(rule, "wasm: an occurrence of opcodeI32Const/opcodeI64Const (or of the raw byte 0x41/0x42) in a []byte literal or WriteByte call is followed (same statement, or the next one) by encodeS32/encodeS64, or by the literal immediate 0x00")
+	s32 := c.LookupFn(pkgWasm, "encodeS32")
+	s64 := c.LookupFn(pkgWasm, "encodeS64")
+	u32 := c.LookupFn(pkgWasm, "encodeU32")
+	c32 := c.lookupObj(pkgWasm, "opcodeI32Const")
+	c64 := c.lookupObj(pkgWasm, "opcodeI64Const")
+	if !r.Anchor(rule, s32 != nil && s64 != nil && u32 != nil && c32 != nil && c64 != nil, "wasm encodeS32/S64/U32, opcodeI32Const/I64Const") {
+		return
+	}
+	n := 0
+	for _, fn := range c.AllFns(pkgWasm) {
+		info := fn.Info()
+		ast.Inspect(fn.Decl.Body, func(x ast.Node) bool {
+			var list []ast.Stmt
+			switch b := x.(type) {
+			case *ast.BlockStmt:
+				list = b.List
+			case *ast.CaseClause:
+				list = b.Body
+			default:
+				return true
+			}
+			for i, st := range list {
+				// (1) raw opcode bytes, (2) named opcode in a []byte literal / WriteByte
+				var opcodeUse ast.Node
+				rawByte := ""
+				ast.Inspect(st, func(y ast.Node) bool {
+					switch z := y.(type) {
+					case *ast.BlockStmt, *ast.FuncLit:
+						if y != ast.Node(st) {
+							return false
+						}
+					case *ast.CompositeLit:
+						if sl, ok := info.TypeOf(z).Underlying().(*types.Slice); ok {
+							if b, ok := sl.Elem().Underlying().(*types.Basic); ok && b.Kind() == types.Uint8 {
+								for _, e := range z.Elts {
+									if bl, ok := e.(*ast.BasicLit); ok {
+										if v := constOf(info, bl); v != nil && (intVal(v) == 0x41 || intVal(v) == 0x42) && len(z.Elts) <= 2 {
+											rawByte = bl.Value
+										}
+									}
+									if o := objOf(info, e); o == c32 || o == c64 {
+										opcodeUse = e
+									}
+								}
+							}
+						}
+					case *ast.CallExpr:
+						if sel, ok := ast.Unparen(z.Fun).(*ast.SelectorExpr); ok && sel.Sel.Name == "WriteByte" && len(z.Args) == 1 {
+							if bl, ok := z.Args[0].(*ast.BasicLit); ok {
+								if v := constOf(info, bl); v != nil && (intVal(v) == 0x41 || intVal(v) == 0x42) {
+									rawByte = bl.Value
+								}
+							}
+							if o := objOf(info, z.Args[0]); o == c32 || o == c64 {
+								opcodeUse = z.Args[0]
+							}
+						}
+					}
+					return true
+				})
+				if opcodeUse == nil && rawByte == "" {
+					continue
+				}
+				n++
+				want := s32.Obj
+				label := "raw byte " + rawByte
+				if opcodeUse != nil {
+					label = exprStr(opcodeUse.(ast.Expr))
+					if objOf(info, opcodeUse.(ast.Expr)) == c64 {
+						want = s64.Obj
+					}
+				} else if rawByte == "0x42" || rawByte == "66" {
+					want = s64.Obj
+				}
+				okEnc := false
+				// literal zero immediate in the same literal: []byte{opcodeI32Const, 0x00}
+				ast.Inspect(st, func(y ast.Node) bool {
+					if cl, ok := y.(*ast.CompositeLit); ok && len(cl.Elts) == 2 {
+						if v := constOf(info, cl.Elts[1]); v != nil && intVal(v) == 0 {
+							okEnc = true
+						}
+					}
+					return true
+				})
+				for _, cand := range []ast.Stmt{st, nextStmt(list, i)} {
+					if cand == nil {
+						continue
+					}
+					for _, cl := range callsIn(cand, false) {
+						if isCallTo(info, cl, want) {
+							okEnc = true
+						}
+					}
+				}
+				r.Check(okEnc, rule, fn.Name(), "immediate of "+label+" is a signed LEB128", c.pos(st.Pos()),
+					"the immediate written after the constant opcode is not encodeS32/encodeS64: an unsigned LEB128 whose last byte has bit 6 set is decoded as a negative number")
+			}
+			return true
+		})
+	}
+	r.Floor(rule, n, 3, "constant opcodes outside the append idiom")
+}
+
+func nextStmt(list []ast.Stmt, i int) ast.Stmt {
+	if i+1 < len(list) {
+		return list[i+1]
+	}
+	return nil
+}
